@@ -92,6 +92,11 @@ pub const FAULT_LINES: &[(&str, &str)] = &[
     ("missing_keyword.stray_pronoun_is", "Zork it is 5"),
     ("missing_keyword.stray_pronoun_listen", "listen to Zork it"),
     ("missing_keyword.stray_pronoun_roll", "roll Zork into Quark it"),
+    // an invalid word where the noun of a common name (`the x`, `my x`) belongs
+    ("invalid_identifier.after_article", "the x1 is 5"),
+    ("invalid_identifier.underscore_after_possessive", "my _ is 3"),
+    ("invalid_identifier.number_after_possessive", "put 7 into my 5"),
+    ("invalid_identifier.parameter_after_article", "Zork takes the x1"),
     ("invalid_identifier.trailing_digit", "ab1 is 5"),
     ("invalid_identifier.leading_underscore", "_x is 5"),
     ("invalid_identifier.inner_underscore", "x_y is 5"),
